@@ -97,6 +97,7 @@ pub struct SimStats {
     pub rst_seen: u64,
     pub storm: bool,
     pub aborted_by_plan: bool,
+    pub keep_alive_toggles: u64,
 }
 
 
@@ -815,6 +816,16 @@ impl TcpSim {
         let max_read = self.cfg.ep[i].max_read;
         let use_closure = self.cfg.ep[i].use_recv_closure;
         let mut did = false;
+
+        // ---- the application changes its mind about keep-alive now and then (sockets that started
+        // with keep-alive only: the sender monitor's exemption is tied to it)
+        if let Some(ms) = self.cfg.ep[i].keep_alive_ms {
+            if rng.chance(1, 150) {
+                let on = self.sock(i).keep_alive().is_some();
+                self.sock(i).set_keep_alive(if on { None } else { Some(Duration::from_millis(ms)) });
+                self.stats.keep_alive_toggles += 1;
+            }
+        }
 
         // ---- write
         if self.apps[i].written < total && self.sock(i).can_send() {
